@@ -178,10 +178,11 @@ theorem cover_walk_root {es es' : Entities} {req : Request} (hsub : SubStore es 
 
 /-! ## provenance of values and the evaluation relation -/
 
-/-- neither an entity reference nor a record: nothing can be dereferenced -/
+/-- a boolean, long, string or extension value: nothing can be dereferenced, nothing refers to an entity -/
 def Scalar : Value → Prop
   | .prim (.entityUID _) => False
   | .record _ => False
+  | .set _ => False
   | _ => True
 
 /-- the value pair `(v, v')` (store, slice) is what one of the access paths denotes -/
